@@ -801,6 +801,8 @@ def run(chk):
     chk.floor("C14-D16.output", n16, 4, "API calls that hand `output` to a Global routine")
     n17 = c14more.rawlen_rule(chk, db, "C14-D17.rawlen")
     chk.floor("C14-D17.rawlen", n17, 8, "array copies in raw-pointer make overloads")
+    n19 = c14more.modes_rule(chk, db, "C14-D19.modes")
+    chk.floor("C14-D19.modes", n19, 8, "API calls that install a batch refinement")
     n18 = c14more.nopoints_rule(chk, db, "C14-D18.nopoints")
     chk.floor("C14-D18.nopoints", n18, 1, "vector overload of loadNeededValues")
 
